@@ -1213,6 +1213,23 @@ def _damage(data, st):
         return data[:off] + bytes.fromhex(st["bytes"]) + data[off:]
     if mode == "set":
         return bytes.fromhex(st["bytes"])
+    if mode == "glue":
+        # bytes glued directly behind the index-th record line (no newline in between)
+        lines = data.split(b"\n")
+        if len(lines) < 2:
+            return None
+        i = 1 + st["index"] % (len(lines) - 1)
+        lines[i] = lines[i] + bytes.fromhex(st["bytes"])
+        return b"\n".join(lines)
+    if mode == "flip_nl":
+        # one bit of the index-th NEWLINE byte (the separators are bytes like any other)
+        offs = [j for j, c in enumerate(data) if c == 10]
+        if not offs:
+            return None
+        j = offs[st["index"] % len(offs)]
+        b = bytearray(data)
+        b[j] ^= 1 << (st["bit"] % 8)
+        return bytes(b)
     if mode in ("insert_line", "dup_line", "swap_lines", "drop_nl"):
         lines = data.split(b"\n")
         if mode == "insert_line":
@@ -1281,6 +1298,16 @@ def run_program(sess, prog, on_step=None):
                 with open(os.path.join(dp, st["name"]), "wb") as f:
                     f.write(bytes(st.get("bytes", [])))
                 sess.trace.append({"ev": "env", "op": {"op": "env_stray"}})
+                results.append(None)
+                continue
+            elif act == "root_symlink_ext":
+                # a symbolic link directly under the cache root pointing at the directory of the
+                # external files: nothing a removal does may pass through it
+                lp = os.path.join(sess.root, "zz-shared")
+                os.makedirs(sess.root, exist_ok=True)
+                os.makedirs(sess.extdir, exist_ok=True)
+                if not os.path.lexists(lp):
+                    os.symlink(sess.extdir, lp)
                 results.append(None)
                 continue
             elif act == "bucket_fifo_like_empty":
